@@ -48,6 +48,11 @@ def handleGeom (op : String) : P String := do
   | "subgrid" => do let g ← pGrid; let a ← pArea; pure (showGrid (g.subgrid a))
   | "gridget" => do let g ← pGrid; let p ← pPos; pure (showExcept showObj (g.pyGet p))
   | "front" => do let a ← pAgent; pure (showPos a.front)
+  | "objeq" => do
+      let a ← pObj; let b ← pObj
+      pure s!"{showBool (a.pyEq b)} {a.hashKey.1} {a.hashKey.2.1} {a.hashKey.2.2}"
+  | "grideq" => do let a ← pGrid; let b ← pGrid; pure (showBool (a.pyEq b))
+  | "stateeq" => do let a ← pState; let b ← pState; pure (showBool (a.pyEq b))
   | _ => failure
 
 def handleDyn (op : String) : P String := do
